@@ -16,6 +16,44 @@ use std::time::Instant;
 #[global_allocator]
 static GLOBAL: crate::core::alloc::Counting = crate::core::alloc::Counting;
 
+/// A `log` backend that accepts every record and renders it into nothing.  With the maximum level
+/// at Off (default) the library's log statements are not evaluated at all; the *log pass* raises
+/// it to Trace, so every argument expression of every log statement runs.
+struct SinkLogger;
+impl log::Log for SinkLogger {
+    fn enabled(&self, _: &log::Metadata) -> bool {
+        true
+    }
+    fn log(&self, record: &log::Record) {
+        let s = format!("{}", record.args());
+        std::hint::black_box(s);
+    }
+    fn flush(&self) {}
+}
+static LOGGER: SinkLogger = SinkLogger;
+/// checks whose subject can reach a log statement of the library
+const LOG_PASS: [&str; 14] = ["C02", "C03", "C04", "C05", "C06", "C07", "C08", "C09", "C11", "C15", "C16", "C17", "C18", "C19"];
+/// build variant of this binary: "" = default features, optimised, debug assertions and overflow
+/// checks on; or the library's optional cargo feature; or the optimised build without assertions
+pub fn variant() -> &'static str {
+    if cfg!(feature = "b64bytes") {
+        "serialize_bytes_as_base64_string"
+    } else if !cfg!(debug_assertions) {
+        "no-debug-assertions"
+    } else {
+        ""
+    }
+}
+fn set_trace(on: bool) {
+    log::set_max_level(if on { log::LevelFilter::Trace } else { log::LevelFilter::Off });
+    // isolated worker processes inherit the setting
+    if on {
+        std::env::set_var("VERIF_LOG", "trace");
+    } else {
+        std::env::remove_var("VERIF_LOG");
+    }
+}
+
 fn machinery(msg: &str) -> ! {
     eprintln!("MACHINERY-ERROR: {msg}");
     std::process::exit(2)
@@ -23,6 +61,8 @@ fn machinery(msg: &str) -> ! {
 
 fn main() {
     crate::core::par::install_panic_hook();
+    let _ = log::set_logger(&LOGGER);
+    log::set_max_level(if std::env::var("VERIF_LOG").as_deref() == Ok("trace") { log::LevelFilter::Trace } else { log::LevelFilter::Off });
     let args: Vec<String> = std::env::args().skip(1).collect();
     if args.first().map(|s| s.as_str()) == Some("--child") {
         // --child <prop> <mode> <tier> <lo..hi> <skip,csv> <every> <stack_mb>
@@ -81,7 +121,10 @@ fn main() {
         let text = std::fs::read_to_string(&path).unwrap_or_else(|e| machinery(&format!("read {}: {e}", path.display())));
         let v: serde_json::Value = serde_json::from_str(&text).unwrap_or_else(|e| machinery(&format!("parse {}: {e}", path.display())));
         let want = v["key"].as_str().unwrap_or("").to_string();
-        let fs = (prop.replay)(&ctx, &v["case"]).unwrap_or_else(|e| machinery(&format!("replay: {e}")));
+        if v["variant"].as_str().unwrap_or("") != variant() {
+            machinery(&format!("this replay file belongs to the build variant {:?}, this binary is {:?} (use the /verif/vcheck wrapper)", v["variant"].as_str().unwrap_or(""), variant()));
+        }
+        let fs = replay_case(&prop, &ctx, &v["case"]).unwrap_or_else(|e| machinery(&format!("replay: {e}")));
         let mut hit = false;
         for f in &fs {
             println!("replayed finding key={} detail={}", f.key, f.detail);
@@ -105,11 +148,48 @@ fn main() {
         std::process::exit(if fs.iter().any(|f| known.lookup(&id, &f.key).is_none()) { 1 } else { 0 });
     }
 
-    let run = match crate::core::par::catch(|| (prop.run)(&ctx)) {
+    let mut run = match crate::core::par::catch(|| (prop.run)(&ctx)) {
         Ok(Ok(r)) => r,
         Ok(Err(e)) => machinery(&e),
         Err(p) => machinery(&format!("harness panic: {p}")),
     };
+    if LOG_PASS.contains(&id.as_str()) {
+        // the log pass: the same exploration with a logger installed at Trace.  Findings already
+        // seen without the logger are the same defects; new ones carry the prefix log=trace/.
+        set_trace(true);
+        let second = crate::core::par::catch(|| (prop.run)(&ctx));
+        set_trace(false);
+        match second {
+            Ok(Ok(r2)) => {
+                let mut fresh = 0u64;
+                for (k, (mut f, n)) in r2.findings {
+                    if run.findings.contains_key(&k) {
+                        continue;
+                    }
+                    let key = format!("log=trace/{k}");
+                    f.key = key.clone();
+                    f.detail = format!("with a log backend accepting level Trace: {}", f.detail);
+                    f.case = serde_json::json!({"log": "trace", "case": f.case});
+                    run.findings.insert(key, (f, n));
+                    fresh += 1;
+                }
+                run.coverage.insert("log_trace_pass".into(), serde_json::json!({"evaluations": r2.coverage.get("evaluations"), "findings_not_seen_without_logger": fresh}));
+                run.assumptions.push("the whole exploration runs twice: without a log backend and with one that accepts level Trace (so that the argument expressions of the library's log statements are evaluated)".into());
+            }
+            Ok(Err(e)) => machinery(&format!("log pass: {e}")),
+            Err(p) => machinery(&format!("harness panic in the log pass: {p}")),
+        }
+    }
+    if !variant().is_empty() {
+        // a feature-variant build: its findings are keyed apart from those of the default build
+        let fs = std::mem::take(&mut run.findings);
+        for (k, (mut f, n)) in fs {
+            let key = format!("feature={}/{k}", variant());
+            f.key = key.clone();
+            f.detail = format!("library built as variant {}: {}", variant(), f.detail);
+            run.findings.insert(key, (f, n));
+        }
+    }
     let mut violations = 0usize;
     let mut known_seen = vec![];
     let mut lines = vec![];
@@ -128,7 +208,7 @@ fn main() {
         let mut confirmed = false;
         let mut last = String::new();
         for _attempt in 0..5 {
-            match crate::core::par::catch(|| (prop.replay)(&ctx, &f.case)) {
+            match crate::core::par::catch(|| replay_case(&prop, &ctx, &f.case)) {
                 Ok(Ok(fs)) if fs.iter().any(|g| g.key == *key) => {
                     confirmed = true;
                     break;
@@ -162,7 +242,8 @@ fn main() {
     }
     let cov = &run.coverage;
     println!(
-        "{id} tier={} level={} evaluations={} states={} transitions={} distinct_nontrivial={} outcomes={} violations={violations} known={} wall={:.1}s",
+        "{id}{} tier={} level={} evaluations={} states={} transitions={} distinct_nontrivial={} outcomes={} violations={violations} known={} wall={:.1}s",
+        if variant().is_empty() { String::new() } else { format!(" variant={}", variant()) },
         tier.name(),
         run.level,
         cov.get("evaluations").map(|v| v.to_string()).unwrap_or_default(),
@@ -174,4 +255,31 @@ fn main() {
         ctx.start.elapsed().as_secs_f64()
     );
     std::process::exit(if violations > 0 { 1 } else { 0 });
+}
+
+
+/// Replay a case; cases of the log pass are replayed with the logger at Trace, and keys get the
+/// prefixes the run gave them.
+fn replay_case(prop: &props::Prop, ctx: &Ctx, case: &serde_json::Value) -> Result<Vec<Finding>, String> {
+    let (inner, trace) = if case.get("log").and_then(|l| l.as_str()) == Some("trace") { (&case["case"], true) } else { (case, false) };
+    if trace {
+        set_trace(true);
+    }
+    let r = (prop.replay)(ctx, inner);
+    if trace {
+        set_trace(false);
+    }
+    r.map(|fs| {
+        fs.into_iter()
+            .map(|mut f| {
+                if trace {
+                    f.key = format!("log=trace/{}", f.key);
+                }
+                if !variant().is_empty() {
+                    f.key = format!("feature={}/{}", variant(), f.key);
+                }
+                f
+            })
+            .collect()
+    })
 }
